@@ -270,6 +270,30 @@ def check(run, ctx):
         d = [n for n in inline.flat_nodes(repo, f) if isinstance(n, ast.Call) and dotted(n.func) == "json.dumps"]
         bad = [k for n in d for k in n.keywords if k.arg == "ensure_ascii" and not (isinstance(k.value, ast.Constant) and k.value.value is True)]
         (run.ok(X6, f"{fn} json.dumps", "ensure_ascii default") if d and not bad else run.finding(X6, fn, "dumps", f"{fn} does not serialise through json.dumps(ensure_ascii=True)", f.loc))
+    X8 = run.rule("X8", "standard output of a linter command carries the rendering and nothing else: the only stdout writers outside the `config`/`init-config` command modules are the renderers behind format_violations", floor=6,
+                  decides="--format json / sarif output parses as one document whatever options (--clear-cache, --verbose, ...) accompany it")
+    fv = repo.func(f"{CLI_UTILS}.format_violations")
+    renderers = set(ctx.cg.reach([fv.qual], resolved_only=True))
+    NON_LINTER = ("src.cli.config", "src.cli.config_merge")   # `thailint config ...` / `init-config`: their stdout is their result
+    n_r = 0
+    for f in sorted(repo.funcs.values(), key=lambda x: x.qual):
+        for n in ast.walk(f.node):
+            if not isinstance(n, ast.Call):
+                continue
+            t = dotted(n.func) or ""
+            if t not in ("click.echo", "click.secho", "print", "sys.stdout.write", "echo", "secho", "click.echo_via_pager"):
+                continue
+            kw = {k.arg: k.value for k in n.keywords}
+            if (isinstance(kw.get("err"), ast.Constant) and kw["err"].value is True) or ("file" in kw and "stderr" in ast.unparse(kw["file"])):
+                continue
+            if f.qual in renderers or (f.parent is not None and f.parent.qual in renderers):
+                n_r += 1
+                run.ok(X8, f"{f.qual.replace('src.', '')}:{n.lineno}", "renderer behind format_violations")
+            elif f.module.name in NON_LINTER:
+                continue
+            else:
+                run.finding(X8, f.qual.replace("src.", ""), f"stdout:{norm(n)[:60]}", f"{f.qual} writes `{norm(n)[:80]}` to standard output outside the renderers: with --format json or sarif the text lands in front of (or inside) the document, which no longer parses, while the exit status still says a valid report was produced", f"{f.module.rel}:{n.lineno}")
+    run.require(n_r >= 6, f"X8: only {n_r} stdout writers found behind format_violations (7 confirmed)")
     run.extra["commands"] = len(cmds)
     return __doc__
 
